@@ -1,11 +1,11 @@
 SPECIFICATION Spec
 CONSTANTS
-  Procs = {1,2}
+  Procs = {1}
   NIds = 3
   Cost <- Cost112
   Size = 2
-  MaxCalls = 4
-  MaxPerProc = 2
+  MaxCalls = 3
+  MaxPerProc = 3
   Twin = "evict_once"
   Record = FALSE
 INVARIANTS
